@@ -303,6 +303,7 @@ def check(run, replay=None):
     pid, th = run.pid, run.tier == "thorough"
     rng = random.Random(run.seed * 7919 + int(pid[1:]))
     run.mc_violated = None
+    pipe_run.EXERCISED.clear()
     binp = pipe_run.build()
     with Scratch() as d:
         if replay:
@@ -397,6 +398,13 @@ def check(run, replay=None):
             run.add_mc("PipeTraceP", r, {"traces": "batch"})
         run.traces += len(traces)
         report(run, pid, scheds, traces, viols)
+        ex = {k: v for k, v in sorted(pipe_run.EXERCISED.items()) if k in PREDS[pid]}
+        run.notes["executions_in_which_the_antecedent_held"] = ex
+        conditional = {"Complete", "Settle1", "Settle2", "LiftCloses", "TakeBound", "FoldRes", "NeverBlocksSender", "LosslessAfterCancel", "GenStops", "EmitPaced",
+                       "EmitKeepUp", "JoinComplete", "ThrottleWindow", "ThrottlePaced", "PipeComplete", "PipeGen"}
+        vac = [p for p in PREDS[pid] if p in conditional and not ex.get(p)]
+        log("phase: antecedents held: %s%s" % (ex, (" ; NEVER exercised in this run: %s" % vac) if vac else ""))
+        run.notes["predicates_never_exercised"] = vac
         for model, (sample, acc, rej, bres) in bound.items():
             for r in bres:
                 run.add_mc(model + "TraceI", r, {"traces": "batch"})
